@@ -314,6 +314,26 @@ func (s *OuterJoin) receiveRecord(ctx ExecutionContext, produce ProduceFn, myRec
 		}
 		key[i] = value
 	}
+	for i := range key {
+		if key[i].TypeID == octosql.TypeIDNull {
+			// The key comes from equality predicates, and NULL doesn't equal anything, so this record can't ever match.
+			// On an outer side it's just passed through with nulls on the other side.
+			if s.isOuterLeft && amLeft {
+				outputValues := make([]octosql.Value, s.leftFieldCount+s.rightFieldCount)
+				copy(outputValues, record.Values)
+				if err := produce(ProduceFromExecutionContext(ctx), NewRecord(outputValues, record.Retraction, record.EventTime)); err != nil {
+					return fmt.Errorf("couldn't produce: %w", err)
+				}
+			} else if s.isOuterRight && !amLeft {
+				outputValues := make([]octosql.Value, s.leftFieldCount+s.rightFieldCount)
+				copy(outputValues[s.leftFieldCount:], record.Values)
+				if err := produce(ProduceFromExecutionContext(ctx), NewRecord(outputValues, record.Retraction, record.EventTime)); err != nil {
+					return fmt.Errorf("couldn't produce: %w", err)
+				}
+			}
+			return nil
+		}
+	}
 
 	firstRecordForThatKeyOnThisSide := false
 	lastRetractionForThatKeyOnThisSide := false
